@@ -31,7 +31,7 @@ TIMEOUT = {"quick": 1200, "thorough": 7200}
 
 NAMES = ["c", "al", "ad", "l", "d", "s", "inst", "dyn", "tl", "tls", "u",
          "arr", "fl", "bg", "border", "frame", "mp", "bag", "pick", "lo",
-         "rng"]
+         "dv", "rng"]
 #: property-style trait types keep their value under another __dict__ key
 STORE = {"bag": "_traits_cache_bag", "pick": "_traits_cache_pick",
          "rng": "_traits_cache_rng"}
@@ -208,7 +208,7 @@ def submenu():
 VALID = {"c": 11, "al": [5], "ad": {"k": 1}, "l": [4], "d": {"k": 2},
          "s": {6}, "dyn": [8], "tl": ([3], 3), "tls": ([3], "q"), "u": [2],
          "fl": [1], "bg": "green", "border": "green", "mp": "b",
-         "bag": [3], "pick": "c", "lo": 0.5, "rng": 3}
+         "bag": [3], "pick": "c", "lo": 0.5, "rng": 3, "dv": 4}
 
 
 class World:
@@ -223,6 +223,9 @@ class World:
             self.sibs[0][1].rng
         self.handlers = {}
         self.reported = {}       # name -> id of default reported at del time
+        #: name -> default seen at the first read (until the name is
+        #: assigned, deleted or its trait replaced)
+        self.first_default = {}
         self.dels = 0
         self.sib_calls = []
         sc = self.sib_calls
@@ -305,16 +308,26 @@ def apply(ctx, w, ev, hist, check):
                 getattr(w, "added_" + n, False)
             if not has_it:
                 want = baseline()[w.cls.__name__][n]
+                if n == "rng" and "dv" in a.__dict__:
+                    want = plain(a.__dict__["dv"])    # the named default
                 if n == "rng" and isinstance(a.__dict__.get("lo"), float):
                     want = plain(float(want))   # float bounds, float values
                 if plain(v) != want:
                     bad("wrong-default", "first read of %s gives %r, "
                         "declared default %r" % (n, plain(v), want))
+            w.first_default[n] = v
             if n in w.reported:
                 if w.reported[n] != id(v):
                     bad("reported-default-not-read", "the default object "
                         "reported to handlers when %s was deleted is not "
                         "the object read afterwards" % n)
+        if check and not first and n in w.first_default:
+            f0 = w.first_default[n]
+            same = (v is f0) or (n == "rng" and v == f0)
+            if not same:
+                bad("default-recomputed", "%s was never assigned since its "
+                    "default was first read as %r; it now reads %r"
+                    % (n, f0, v))
         if k == "mutate":
             c = v
             if n in ("tl", "tls"):
@@ -328,12 +341,14 @@ def apply(ctx, w, ev, hist, check):
     elif k == "assign":
         setattr(a, ev[1], VALID[ev[1]])
         w.reported.pop(ev[1], None)
+        w.first_default.pop(ev[1], None)
     elif k == "del":
         log = a.__dict__.setdefault("_log", [])
         n0 = len(log)
         delattr(a, ev[1])
         w.dels += 1
         w.reported.pop(ev[1], None)
+        w.first_default.pop(ev[1], None)
         new = [x for x in log[n0:] if x[0] == ev[1]]
         if new:
             ctx.outcome("del-then-read")
@@ -366,14 +381,19 @@ def apply(ctx, w, ev, hist, check):
         a.add_trait(n, {"c": Int(7), "l": List(Int, [5]),
                         "zz": List(Str)}[n])
         setattr(w, "added_" + n, True)
+        w.first_default.pop(n, None)
     elif k == "remove_trait":
         a.remove_trait(ev[1])
         setattr(w, "added_" + ev[1], False)
+        w.first_default.pop(ev[1], None)
     elif k == "trait_set":
         a.trait_set(c=12, l=[6])
+        w.first_default.pop("c", None)
+        w.first_default.pop("l", None)
     elif k == "reset_traits":
         a.reset_traits()
         w.dels += len(NAMES)
+        w.first_default.clear()
     elif k == "traits_call":
         a.traits()
     elif k == "trait_get":
@@ -387,6 +407,8 @@ def apply(ctx, w, ev, hist, check):
         # takes the sibling's values; the sibling must stay as it is
         a.copy_traits(w.sibs[0][1] if isinstance(a, type(w.sibs[0][1]))
                       else w.sibs[1][1], traits=["l", "d"])
+        w.first_default.pop("l", None)
+        w.first_default.pop("d", None)
     elif k == "copy_to_fresh":
         type(a)().copy_traits(a)
     return good
